@@ -44,6 +44,8 @@ func vfstub_c17_WithCancel(parent context.Context) (context.Context, context.Can
 }
 
 var c17 struct {
+	slowDial  bool // the reconnect takes time: the stub sleeps until the harness lets it finish
+	dialDone  bool
 	failsLeft int
 	calls     int
 	made      [8]*Session
@@ -62,6 +64,11 @@ var c17D *c13Dispatcher
 
 func vfstub_c17_newClientSession(sessionID int, epochID, randID uint64, config *SessionManagerConfig) (*Session, error) {
 	c17.calls++
+	if c17.slowDial {
+		for !c17.dialDone {
+			time.Sleep(time.Millisecond)
+		}
+	}
 	if c17.failsLeft > 0 {
 		// the server is not reachable (yet)
 		c17.failsLeft--
@@ -90,6 +97,7 @@ func H_C17_heal() {
 	d := &c13Dispatcher{}
 	c17D = d
 	c17.failsLeft, c17.calls, c17.nmade = 0, 0, 0
+	c17.slowDial, c17.dialDone = false, false
 	c16Wire = nil
 	sm := &SessionManager{config: &SessionManagerConfig{Config: &Config{rebuildInterval: time.Millisecond}, MaxStreamNum: 2},
 		ctx: context.Background()}
@@ -111,7 +119,7 @@ func H_C17_heal() {
 	healthy := func(i int) bool { return !sm.pools[i].Session().IsClosed() }
 	E := vfShape("events", 1, 3)
 	for j := 0; j < E; j++ {
-		ev := vfShape("ev", 0, 4)
+		ev := vfShape("ev", 0, 5)
 		switch ev {
 		case 0:
 			// the session behind pool k is lost (its connection breaks); the server comes back after
@@ -256,6 +264,35 @@ func H_C17_heal() {
 			_, gerr := sm.pools[k].getOrOpenStream()
 			vfAssert(gerr != nil, "C17.get-stream-fails-while-the-server-is-down")
 			vfCover("opt:C17.down")
+		case 5:
+			// Close while the replacement session is being established (the dial and handshake take
+			// time): Close still returns, and the session that is completed meanwhile does not survive it
+			k := vfShape("pool", 0, P-1)
+			if closed || down || !healthy(k) {
+				vfPrune()
+			}
+			closed = true
+			c17.failsLeft = 0
+			c17.slowDial, c17.dialDone = true, false
+			lost := sm.pools[k].Session()
+			lost.onRemoteClose()
+			c17RunPosted(d)
+			before := c17.calls
+			vfRunGoroutines()
+			vfAssert(c17.calls == before+1, "C17.reconnect-under-way")
+			c17.dialDone = true
+			vfAssert(sm.Close() == nil, "C17.close-during-reconnect")
+			c17RunPosted(d)
+			c17.slowDial = false
+			for i := 0; i < P; i++ {
+				vfAssert(sm.pools[i].Session().IsClosed(), "C17.close-closes-every-session")
+			}
+			calls := c17.calls
+			vfRunGoroutines()
+			vfAssert(c17.calls == calls, "C17.nothing-is-rebuilt-after-close")
+			_, gerr := sm.GetStream()
+			vfAssert(gerr != nil, "C17.get-stream-after-close-fails")
+			vfCover("opt:C17.closed-during-reconnect")
 		default:
 			// the server is reachable again: every lost pool heals
 			if closed || !down {
